@@ -9,31 +9,32 @@
 // and IPv6.  The table is finite and is enumerated completely in both tiers (Exhaustive).
 //
 // Oracles (never stricter than "same offset, same size, same total size"):
-//   enc   the bytes the Go encoder emits for a field's sentinel lie at the C member's offset (in either
-//         byte order: byte order is not part of the property), the Go value is not wider than the C
-//         member, and the rest of the C member is zero;
-//   dec   with a distinct byte pattern planted in every C member, the Go getter returns the pattern of
-//         its own member (either byte order; a narrower getter must return the low-order bytes);
-//   bit   a Go boolean of a conntrack leg sets/reads exactly the bit that C's bit-field occupies;
-//   const a hand-maintained Go offset constant equals offsetof() of the member it is documented as;
-//   size  Go total size == sizeof, and the declared map key/value sizes == sizeof.
+//
+//	enc   the bytes the Go encoder emits for a field's sentinel lie at the C member's offset (in either
+//	      byte order: byte order is not part of the property), the Go value is not wider than the C
+//	      member, and the rest of the C member is zero;
+//	dec   with a distinct byte pattern planted in every C member, the Go getter returns the pattern of
+//	      its own member (either byte order; a narrower getter must return the low-order bytes);
+//	bit   a Go boolean of a conntrack leg sets/reads exactly the bit that C's bit-field occupies;
+//	const a hand-maintained Go offset constant equals offsetof() of the member it is documented as;
+//	size  Go total size == sizeof, and the declared map key/value sizes == sizeof.
 //
 // Deliberately not checked
-//   * byte order and value semantics (e.g. Leg.AsBytes writes seqno little-endian while
+//   - byte order and value semantics (e.g. Leg.AsBytes writes seqno little-endian while
 //     readConntrackLeg reads it big-endian; NewValueNATReverseSNAT stores origIP where origSrcIP is
 //     meant; NewValueV6NATReverse drops real IPv6 addresses via To4()): same offset/size, so outside the
 //     statement.  NewValueNATReverseSNAT is therefore not used
 //     as an encoder for orig_sip; the OrigSrcIP() getter is checked.
-//   * bpf/state.State beyond `flags` (ConntrackXxx, NATData, ProgStartTime, SrcAddrMasq, NATSvcID): no
+//   - bpf/state.State beyond `flags` (ConntrackXxx, NATData, ProgStartTime, SrcAddrMasq, NATSvcID): no
 //     non-test Felix code reads or writes these fields, so they are outside "every field userspace reads
 //     or writes".  They are still compared and mismatches are COUNTED (stale_unused_go_fields) and
 //     sampled, but never reported as violations.  Likewise unsafe.Sizeof(State) (496) vs
 //     sizeof(struct cali_tc_state) (464 / 512): the shared object is the 512-byte map slot
 //     (STATE_SIZE == state.MapParameters.ValueSize, which IS checked, with sizeof <= slot).
-//   * polprog's IPv6 shift of ip_set_key.port/protocol/pad ("v6Adjust", a local variable of
+//   - polprog's IPv6 shift of ip_set_key.port/protocol/pad ("v6Adjust", a local variable of
 //     setUpIPSetKey): not a constant that can be read; covered dynamically by C11.
-//   * enum values (conntrack entry types, NAT flags) and unexported padding members.
-//   * C members for which Go has no accessor: listed as evidence (unmapped_c_members), no verdict.
+//   - enum values (conntrack entry types, NAT flags) and unexported padding members.
+//   - C members for which Go has no accessor: listed as evidence (unmapped_c_members), no verdict.
 package main
 
 import (
@@ -835,8 +836,10 @@ func buildRows(ipver int) []row {
 		return nat.MaglevBackendKeyFromBytes(img)
 	}
 	add(binding{gostruct: "nat.MaglevBackendKey", ctag: "maglev_key", goSize: len(mkMG(0, 0).AsBytes()),
-		enc:    []encField{{"maglev_key.sid", 4}, {"maglev_key.ordinal", 4}},
-		encode: func(v map[string][]byte) []byte { return mkMG(u32(v["maglev_key.sid"]), u32(v["maglev_key.ordinal"])).AsBytes() },
+		enc: []encField{{"maglev_key.sid", 4}, {"maglev_key.ordinal", 4}},
+		encode: func(v map[string][]byte) []byte {
+			return mkMG(u32(v["maglev_key.sid"]), u32(v["maglev_key.ordinal"])).AsBytes()
+		},
 		dec: []decField{
 			{"maglev_key.sid", func(i []byte) []byte { return le32(mgFrom(i).SvcID()) }},
 			{"maglev_key.ordinal", func(i []byte) []byte { return le32(mgFrom(i).Ordinal()) }},
